@@ -2,7 +2,7 @@ import MayVerif.Proof.Io.TT
 namespace MayVerif.Io
 
 set_option maxHeartbeats 16000000 in
-theorem inv5_ustep (st st' : St) (c : Co) (pc : UPc) (e : Env) (h : Inv1 st) (h3 : Inv3 st) (h5 : Inv5 st)
+theorem inv5_ustep (st st' : St) (c : Co) (pc : UPc) (e : Env) (hc : Cfg st) (h : Inv1 st) (h3 : Inv3 st) (h7 : Inv7 st) (h5 : Inv5 st)
     (hpc : st.upc c = pc) (hs : ustep st c pc e = some st') : Inv5 st' := by
   have setU : ∀ k s c r t, st.kpc k = .set s c r t → st.user s = some c ∧ st.upc c = .wait s := by
     intro k s c r t hk
@@ -16,36 +16,32 @@ theorem inv5_ustep (st st' : St) (c : Co) (pc : UPc) (e : Env) (h : Inv1 st) (h3
     intro s c hs
     have := h.ws s c hs
     exact ⟨h.u1 c s (by simp [this, uSock]), this⟩
+  have hq : st.queued c = true → (∀ k, kTok (st.kpc k) = none ∨ ∀ s', kTok (st.kpc k) ≠ some (c, s')) ∧ (∀ s', st.slot s' ≠ some c) := by
+    intro hq
+    have hl := h.lq c hq
+    refine ⟨fun k => Or.inr fun s' hk => ?_, fun s' hs' => ?_⟩
+    · have := h.lt k c s' hk; rw [hl] at this; cases this
+    · have := h.ls s' c hs'; rw [hl] at this; cases this
   prep5
   have hu1 := u1 c; have hk0n := k0 st.nk
   simp at hk0n
+  have hnk : ∀ k, st.kpc k ≠ .off → k ≠ st.nk := by intro k hk he; subst he; exact hk hk0n
+  clear lt ls lk lw lq wk ww wq nb nd wt ws k0 t1 lk1 lk2 m1 ft hk hw
   cases pc with
-  | idle => clear lt ls lk lw lq wk ww wq nb nd wt ws k0; cases e <;> crunch5
-  | done o => clear lt ls lk lw lq wk ww wq nb nd wt ws k0; cases e <;> crunch5
-  | reset s => clear lt ls lk lw lq wk ww wq nb nd wt ws k0; simp [hpc, uSock] at hu1; crunch5
-  | sys s f => clear lt ls lk lw lq wk ww wq nb nd wt ws k0; simp [hpc, uSock] at hu1; cases e <;> crunch5
-  | dur s => clear lt ls lk lw lq wk ww wq nb nd wt ws k0; simp [hpc, uSock] at hu1; cases e <;> crunch5
-  | chk s => clear lt ls lk lw lq wk ww wq nb nd wt ws k0; simp [hpc, uSock] at hu1; crunch5
-  | pre s =>
-    have hnk : ∀ k, st.kpc k ≠ .off → k ≠ st.nk := by intro k hk he; subst he; exact hk hk0n
-    clear lt ls lk lw lq wk ww wq nb nd wt ws k0 setU storeU slotU
-    simp [hpc, uSock] at hu1; crunch5
-  | wait s =>
-    have hq : st.queued c = true → (∀ k s', st.kpc k ≠ .dis s' c ∧ st.kpc k ≠ .ownDis s' c) ∧ (∀ w s', st.wpc w ≠ .sDis s' c) := by
-      intro hq
-      have hl := lq c hq
-      refine ⟨fun k s' => ⟨fun hk => ?_, fun hk => ?_⟩, fun w s' hw' => ?_⟩
-      · have := lk k c (by simp [hk, kHolds]); rw [hl] at this; cases this
-      · have := lk k c (by simp [hk, kHolds]); rw [hl] at this; cases this
-      · have := lw w c (by simp [hw', wHolds]); rw [hl] at this; cases this
-    clear lt ls lk lw lq wk ww wq nb nd wt ws k0
-    simp [hpc, uSock] at hu1; cases e <;> crunch5
-  | back s => clear lt ls lk lw lq wk ww wq nb nd wt ws k0; simp [hpc, uSock] at hu1; crunch5
-  | clear s => clear lt ls lk lw lq wk ww wq nb nd wt ws k0; simp [hpc, uSock] at hu1; crunch5
-  | store s => clear lt ls lk lw lq wk ww wq nb nd wt ws k0; simp [hpc, uSock] at hu1; crunch5
+  | idle => cases e <;> u5
+  | done o => cases e <;> u5
+  | reset s => simp [hpc, uSock] at hu1; u5
+  | sys s f => simp [hpc, uSock] at hu1; cases e <;> u5
+  | dur s => simp [hpc, uSock] at hu1; cases e <;> u5
+  | chk s => simp [hpc, uSock] at hu1; u5
+  | pre s => simp [hpc, uSock] at hu1; u5
+  | wait s => simp [hpc, uSock] at hu1; cases e <;> u5
+  | back s => simp [hpc, uSock] at hu1; u5
+  | clear s => simp [hpc, uSock] at hu1; u5
+  | store s => simp [hpc, uSock] at hu1; u5
 
 theorem inv5_estep (st st' : St) (e : Env) (h5 : Inv5 st) (hs : estep st e = some st') : Inv5 st' := by
-  obtain ⟨ff, ent, tf, ta, tk0, tk1, tk2, ts, hk, hw⟩ := h5
-  cases e <;> simp only [estep] at hs <;> first | contradiction | (simp only [Option.some.injEq] at hs; subst hs; constructor <;> assumption)
+  obtain ⟨ta, tkd, tk1, tk2, ts⟩ := h5
+  cases e <;> simp only [estep] at hs <;> (repeat' (split at hs)) <;> first | contradiction | (simp only [Option.some.injEq] at hs; subst hs; constructor <;> first | assumption | grind)
 
 end MayVerif.Io
